@@ -1,5 +1,5 @@
 (* C20 - metric spaces hold true distances; neighbour search = nearest N within range. *)
-From SG Require Import Base.Prelude Model.Pairs Model.Kriging Proofs.PairsP Proofs.KrigingP Proofs.MetricP.
+From SG Require Import Base.Prelude Model.Pairs Model.Kriging Proofs.PairsP Proofs.KrigingP Proofs.StableP Proofs.MetricP.
 Local Open Scope Q_scope.
 
 Theorem C20_matrix_entry {A} (f : A -> A -> Q) (l : list A) (d : A) i j :
@@ -28,3 +28,13 @@ Print Assumptions C20_nearest.
 
 Example C20_nonvacuous : squareform 0 (pdist (fun a b => Qabs (a - b)) [1; 4; 6]) 3 = [[0; 3; 5]; [3; 0; 2]; [5; 2; 0]].
 Proof. vm_compute. reflexivity. Qed.
+
+(* the sort is stable (np.argsort(kind="stable")): candidates at one and the same distance keep their index order, and the
+   selected ones among them are the first ones - which equidistant observations enter a neighbourhood is determined *)
+Theorem C20_sort_stable k l : filter (has_key k) (sort_by l) = filter (has_key k) l.
+Proof. exact (sort_by_stable k l). Qed.
+Print Assumptions C20_sort_stable.
+Theorem C20_ties_by_position cands N k :
+  exists m, filter (has_key k) (firstn N (sort_by cands)) = firstn m (filter (has_key k) cands).
+Proof. exact (closest_ties_by_position cands N k). Qed.
+Print Assumptions C20_ties_by_position.
